@@ -247,7 +247,11 @@ def run(ctx):
         for i in range(ctx.budget(8, 16)):
             # every residue of W modulo 4 (the margin is (W-1)//2 at the front, the rest at the back), odd and even, up to 12
             base = {"N": 1 + i % 2, "W": [1, 2, 3, 4, 5, 8, 6, 12, 7, 9, 10, 11, 4, 8, 12, 2][i], "K": 2 + i % 2, "beta": [4.0, 0.0, 25.0][i % 3], "lengths": [44 + 3 * i], "limit": 3, "m": 2,
-                    "data_seed": 50 + i, "rng_seed": 9 + i, "regimes": 2}
+                    "data_seed": 50 + i, "rng_seed": 9 + i, "regimes": 2,
+                    # every option of the two front ends takes a non-default value in some of the runs (each must reach the fit
+                    # the same way through both)
+                    "biased": i % 2 == 1, "eps": [0, 1e-3, 0][i % 3], "lam": [0.11, 0.3, 0.05][(i // 2) % 3], "m": [2, 3, 5][(i // 3) % 3],
+                    "procs": [1, 2][(i // 4) % 2]}
             a = e2e.traced_run(dict(base, joint=False))
             b = e2e.traced_run(dict(base, joint=True))
             ctx.count("joint-of-one")
